@@ -153,7 +153,10 @@ def monitored(run, tier):
         txt = [diffrun.HEADER]
         for j, c in enumerate(cs):
             txt.append(f"Definition T{j} : @program float := {Parsed(c.result['code']).coq()}.")
-            txt.append(f"Eval vm_compute in (monitor_float {pipeline.FT} T{j} 1%Z).")
+            # function entries (the label line and the line after it: in label-free text the label is gone);
+            # linking jumps to other lines are subroutines inside a function (bodies of loops over lists)
+            ents = sorted({e + d for e in pipeline.region_entries(c.result)[0] for d in (0, 1)})
+            txt.append(f"Eval vm_compute in (monitor_float {pipeline.FT} T{j} [{'; '.join(str(e) for e in ents)}]%nat 1%Z).")
         rc, out, err = core.coqc_text(f"c06m_{k}", "\n".join(txt), 600)
         if rc != 0:
             raise core.CoqEvalError(err[-1500:])
